@@ -15,7 +15,7 @@ by `clear()` since the C08 repair), so `at(token)` is "the routine has not been 
 Cabinet *positions* are reused (LIFO free list) and determine the order in which `cleanup()`
 visits routines, so cells and the free list are modelled.
 
-`fixed = true` is the code after patches/C18-01..03 (and C18-04: no `create()` during `cleanup()`, in both variants) (every queued waiter is woken when the
+`fixed = true` is the code after patches/C18-01..03 and C18-05 (and C18-04: no `create()` during `cleanup()`, in both variants) (every queued waiter is woken when the
 resource becomes available; a waiter registers again before every wait).  `fixed = false` is
 the code as found (one waiter woken, only on the unavailable→available edge; registration only
 before the first wait); it is kept for the counterexample theorems.
@@ -272,9 +272,16 @@ def execOp (s : State) (me : Nat) (op : Op) (rest : List Op) : State × Ctl :=
       finish (s.setCd k { cd with conds := condInsert cd.conds v }) me op rest .ok
   | .cwait k =>
       let cd := s.cd k
-      if cont then finish (s.setCd k { cd with conds := [] }) me op rest (if x.canceled then .fail else .ok)
+      if cont then
+        -- patches/C18-05: only a wait that still owns the registration (interrupted by cancel / a resume by
+        -- hand) clears the conditions and releases the token; as found: `conds_.clear()` unconditionally
+        if s.fixed then
+          (if cd.tok = some me then finish (s.setCd k { cd with conds := [], tok := none }) me op rest (if x.canceled then .fail else .ok)
+           else finish s me op rest (if x.canceled then .fail else .ok))
+        else finish (s.setCd k { cd with conds := [] }) me op rest (if x.canceled then .fail else .ok)
       else if cd.tok.isSome ∨ cd.conds.isEmpty then finish s me op rest .fail
-      else if x.canceled then finish (s.setCd k { cd with tok := some me, conds := [] }) me op rest .fail
+      else if x.canceled then
+        finish (s.setCd k { cd with tok := if s.fixed then none else some me, conds := [] }) me op rest .fail
       else blockIn ((s.setCd k { cd with tok := some me }).setR me { x with state := .suspend }) me op rest
   | .cpost k v =>
       let cd := s.cd k
